@@ -368,6 +368,111 @@ fn model_terms(sink: &mut Sink, dict: &JapaneseDictionary, s: &Value, mine: &[Va
     }
 }
 
+/// `Dictionary.lookup` over a stack of dictionaries that re-define each other's words: built here from the Python test lexicon
+/// plus two user lexicons.  Three things must agree for every query: what sudachipy reports, what the library's
+/// MorphemeList::lookup reports, and the rows of the SOURCE lexicons with that surface (last user dictionary first, the system
+/// dictionary last, rows of one dictionary in file order) -- the documented meaning of the call.
+fn lookup_stage(sink: &mut Sink, args: &Args, root: &str, pypkg: &str) {
+    let res = format!("{}/python/tests/resources", repo());
+    let rd = |f: &str| std::fs::read_to_string(format!("{}/{}", res, f)).unwrap_or_default();
+    let lex = rd("lex.csv");
+    let matrix = rd("matrix.def");
+    let u1 = "東京都,6,6,3000,東京都,名詞,固有名詞,地名,一般,*,*,ユーザートウキョウト,東京都,*,A,*,*,*,*\n京都,6,6,3000,京都,名詞,固有名詞,地名,一般,*,*,ユーザーキョウト,京都,*,A,*,*,*,*\n東京,6,6,3000,東京,名詞,固有名詞,地名,一般,*,*,ユーザートウキョウ,東京,*,A,*,*,*,*\n東京都,6,6,3100,東京都,名詞,普通名詞,一般,*,*,*,ニバンメ,東京都,*,A,*,*,*,*\n";
+    let u2 = "東京都,6,6,2900,東京都,名詞,固有名詞,地名,一般,*,*,ユーザーニ,東京都,*,A,*,*,*,*\n東,7,7,2900,東,名詞,普通名詞,一般,*,*,*,ユーザーヒガシ,東,*,A,*,*,*,*\nに,3,3,2900,に,助詞,格助詞,*,*,*,*,ユーザーニ,に,*,A,*,*,*,*\n東京都に,6,6,2900,東京都に,名詞,固有名詞,地名,一般,*,*,トウキョウトニ,東京都に,*,A,*,*,*,*\n";
+    let dir = args.work.join("lookupdic");
+    let _ = std::fs::remove_dir_all(&dir);
+    std::fs::create_dir_all(&dir).unwrap();
+    let built = (|| -> Result<(), String> {
+        let sys = crate::dictutil::compile_system(&matrix, &lex)?;
+        let b1 = crate::dictutil::compile_user(&sys, u1)?;
+        let b2 = crate::dictutil::compile_user(&sys, u2)?;
+        std::fs::write(dir.join("system.dic"), &sys).map_err(|e| e.to_string())?;
+        std::fs::write(dir.join("u1.dic"), &b1).map_err(|e| e.to_string())?;
+        std::fs::write(dir.join("u2.dic"), &b2).map_err(|e| e.to_string())?;
+        crate::dictutil::prepare_resources(&dir, &res)
+    })();
+    if let Err(e) = built {
+        let id = sink.case_rust_only(json!({"kind": "py-lookup-dict"}), false);
+        sink.fail(id, &format!("the dictionaries of the lookup stage did not build: {}", e), "");
+        return;
+    }
+    let mut cfg: Value = serde_json::from_str(&rd("sudachi.json")).unwrap_or(json!({}));
+    cfg["path"] = json!(dir.to_string_lossy());
+    cfg["systemDict"] = json!("system.dic");
+    cfg["userDict"] = json!(["u1.dic", "u2.dic"]);
+    let cfg_path = dir.join("sudachi.json");
+    std::fs::write(&cfg_path, serde_json::to_vec(&cfg).unwrap()).unwrap();
+    let dict = match Config::new(Some(cfg_path.clone()), Some(dir.clone()), None).map_err(|e| format!("{:?}", e)).and_then(|c| JapaneseDictionary::from_cfg(&c).map_err(|e| format!("{:?}", e))) {
+        Ok(d) => d,
+        Err(e) => {
+            let id = sink.case_rust_only(json!({"kind": "py-lookup-dict"}), false);
+            sink.fail(id, &format!("the dictionaries of the lookup stage did not load: {}", e), "");
+            return;
+        }
+    };
+    // (surface, reading) of the source rows in the documented search order
+    let mut rows: Vec<(String, String, u32)> = vec![];
+    for (dic, csv) in [(2u32, u2), (1u32, u1), (0u32, lex.as_str())] {
+        for (k, l) in csv.lines().enumerate() {
+            let f: Vec<&str> = l.split(',').collect();
+            if f.len() > 11 && f[1] != "-1" {
+                rows.push((f[0].to_string(), f[11].to_string(), (dic << 28) | k as u32));
+            }
+        }
+    }
+    let queries = ["東京都", "京都", "東京", "東", "に", "都", "東京都に", "行っ", "xyz", "", "た"];
+    let mut sessions: Vec<Value> = vec![];
+    for (i, q) in queries.iter().enumerate() {
+        // alone, and after another query into the same reused list
+        sessions.push(json!({"mode": "C", "fields": null, "projection": null, "ops": [{"op": "lookup", "query": q, "out": false}]}));
+        sessions.push(json!({"mode": "C", "fields": null, "projection": null, "ops": [
+            {"op": "lookup", "query": queries[(i + 3) % queries.len()], "out": true}, {"op": "lookup", "query": q, "out": true}, {"op": "lookup", "query": q, "out": false}]}));
+    }
+    let sp = args.work.join("lookup_sessions.json");
+    let op = args.work.join("lookup_out.json");
+    std::fs::write(&sp, serde_json::to_vec(&sessions).unwrap()).unwrap();
+    let _ = std::fs::remove_file(&op);
+    let st = Command::new("timeout").arg("-k").arg("10").arg("900").arg("python3")
+        .arg(format!("{}/pyharness/run_py.py", root)).arg(&cfg_path).arg(&dir).arg(&sp).arg(&op)
+        .env("PYTHONPATH", pypkg).output();
+    let py: Option<Value> = std::fs::read_to_string(&op).ok().and_then(|s| serde_json::from_str(&s).ok());
+    let ok = matches!(&st, Ok(o) if o.status.success());
+    if !ok || py.is_none() {
+        let id = sink.case_rust_only(json!({"kind": "py-lookup-run"}), true);
+        let err = match &st { Ok(o) => String::from_utf8_lossy(&o.stderr).chars().rev().take(600).collect::<String>().chars().rev().collect::<String>(), Err(e) => e.to_string() };
+        sink.fail(id, &format!("python interpreter did not complete the lookup stage: {}", err), "");
+        return;
+    }
+    let py = py.unwrap();
+    for (i, s) in sessions.iter().enumerate() {
+        sink.tag("py-lookup");
+        let id = sink.case_rust_only(json!({"kind": "py-lookup", "session": s, "user_lexicons": [u1, u2]}), true);
+        let theirs = py["results"][i].as_array().cloned().unwrap_or_default();
+        for (k, o) in s["ops"].as_array().unwrap().iter().enumerate() {
+            let q = o["query"].as_str().unwrap();
+            let expected: Vec<(u32, String)> = rows.iter().filter(|r| r.0 == q && !q.is_empty()).map(|r| (r.2, r.1.clone())).collect();
+            let lib: Option<Vec<(u32, String)>> = catch(|| {
+                let mut out = MorphemeList::empty(&dict);
+                out.lookup(q, InfoSubset::all()).ok()?;
+                Some(out.iter().map(|m| (m.word_id().as_raw(), m.reading_form().to_string())).collect::<Vec<_>>())
+            }).ok().flatten();
+            let pyv: Option<Vec<(u32, String)>> = if theirs.get(k).map_or(false, |t| t["ok"] == json!(true)) {
+                Some(theirs[k]["morphemes"].as_array().unwrap().iter().map(|m| (m["word_id"].as_u64().unwrap_or(u64::MAX) as u32, m["reading_form"].as_str().unwrap_or("?").to_string())).collect())
+            } else {
+                None
+            };
+            if lib.as_ref() != Some(&expected) {
+                sink.fail(id, &format!("MorphemeList::lookup({:?}) over [system, u1, u2] gives (word id, reading) {:?}; the rows of the source lexicons with that surface, last user dictionary first: {:?}", q, lib, expected), "");
+                break;
+            }
+            if pyv.as_ref() != Some(&expected) {
+                sink.fail(id, &format!("op {}: Dictionary.lookup({:?}{}) in Python gives (word id, reading) {:?}; the rows of the source lexicons with that surface, last user dictionary first: {:?}", k, q, if o["out"] == json!(true) { ", out=reused" } else { "" }, pyv, expected), "");
+                break;
+            }
+        }
+    }
+}
+
 pub fn run(args: &Args) {
     let mut sink = Sink::new("C19", &args.out, &["Model.Cli", "Model.CliColumns", "Model.PyProjection"], args.seed, &args.tier);
     sink.rule("python: sessions {create(mode, fields subset, projection); 1..6 ops of tokenize(text, per-call mode, out= reuse) / Morpheme.split(mode, out=, add_single) / Dictionary.lookup} run in the sudachipy module built from the working tree and mirrored on the Rust library, compared field by field (surface, raw_surface, begin/end with text[begin:end] == raw_surface, POS, forms, ids, split results); CLI: multi-line files (blank lines, CRLF, no final newline) x modes x {-w, -a, default} x --split-sentences {yes,no,only}, stdout compared byte for byte with the library's morphemes in the documented format; Coq: Model/PyProjection.v (the field-name parser and create()'s subset; for every tokenize / split call the model's projection of the library's morphemes must equal what Morpheme.surface() returned in the interpreter); the line-handling and surface-only-output models against what the tool demonstrably analysed/printed; non-trivial = at least one non-empty text; distinct by content");
@@ -519,6 +624,10 @@ pub fn run(args: &Args) {
                 sink.fail(id, &format!("cannot start python3: {}", e), "");
             }
         }
+    }
+
+    if args.replay.is_none() {
+        lookup_stage(&mut sink, args, &root, &pypkg);
     }
 
     // ---------------- command-line tool
